@@ -2,7 +2,7 @@
    materializer.py `_preprocess_data` L30-48 with utils.py `remove_null_values_from_dataframe` L237-246.
    Definitions only. *)
 From Coq Require Import String.
-From Morph Require Import Base.UStr.
+From Morph Require Import Base.UStr Model.Terms.
 Local Open Scope N_scope.
 
 (* ---------------------------------------------------------------- results *)
@@ -110,11 +110,18 @@ Definition is_flt v := match v with VFloatI _ => true | _ => false end.
 Definition is_str v := match v with VStr _ => true | _ => false end.
 Definition is_bool v := match v with VBool _ => true | _ => false end.
 Definition is_null v := match v with VNull => true | _ => false end.
+(* int -> float64: the nearest binary64 (values below 10^16 print in positional notation) *)
+Definition to_float64 (z : Z) : Z :=
+  match z with
+  | Z0 => Z0
+  | Zpos p => Z.of_N (trunc_round64 (Npos p) 1)
+  | Zneg p => Z.opp (Z.of_N (trunc_round64 (Npos p) 1))
+  end.
 Definition coerce_cell (numeric_float : bool) (v : value) : cell :=
   match v with
   | VNull => if numeric_float then CNaN else CNone
   | VStr s => CStr s
-  | VInt z => if numeric_float then CFloatI z else CInt z
+  | VInt z => if numeric_float then CFloatI (to_float64 z) else CInt z
   | VFloatI z => CFloatI z
   | VBool b => CBool b
   end.
